@@ -532,5 +532,10 @@ func runFrameHarness(pkgDir, harness, focus, scratch string) (string, bool) {
 	t0 := time.Now()
 	out, _ := cmd.CombinedOutput()
 	res := fmt.Sprintf("== frame harness %s focus=%q (%.1fs)\n%s\n", harness, focus, time.Since(t0).Seconds(), string(out))
-	return res, strings.Contains(string(out), "LZ4VERIF-FAIL")
+	crashed := strings.Contains(string(out), "goroutine stack exceeds") || strings.Contains(string(out), "fatal error: stack overflow")
+	if crashed && len(out) > 6000 {
+		out = append(out[:3000], out[len(out)-3000:]...)
+	}
+	res = fmt.Sprintf("== frame harness %s focus=%q (%.1fs)\n%s\n", harness, focus, time.Since(t0).Seconds(), string(out))
+	return res, strings.Contains(string(out), "LZ4VERIF-FAIL") || crashed
 }
